@@ -186,6 +186,9 @@ def oracle(c, op, out, before, after, metrics_before):
                 touched.add(parts[:i])
             if parts not in a:
                 fails.append(f"builder-missing: {name}({key!r}) did not create {parts!r}")
+            elif a[parts][0] != parts[-1]:
+                fails.append(f"builder-title: {name}({key!r}) placed a section titled {a[parts][0]!r} at {parts!r} "
+                             f"(the title of a section is the last component of its path)")
         unchanged_except(touched)
     return fails
 
